@@ -67,7 +67,9 @@ class _Log(Hooks):
     def post_step(self, step, level_number):
         super().post_step(step, level_number)
         L = step.levels[0]
+        import hashlib
         self.att.append(dict(t=float(L.time), dt=float(L.dt), restart=bool(step.status.get('restart')),
+                             u0h=hashlib.sha1(np.ascontiguousarray(L.u[0]).tobytes()).hexdigest()[:12],
                              riar=int(step.status.get('restarts_in_a_row') or 0), raw=step.status.__dict__.get('verif_raw'),
                              final=step.status.__dict__.get('verif_final'), dt_new=L.status.dt_new,
                              e_est=L.status.get('error_embedded_estimate')))
@@ -76,7 +78,7 @@ class _Log(Hooks):
 def run(case):
     from pySDC.implementations.controller_classes.controller_nonMPI import controller_nonMPI
     from pySDC.implementations.sweeper_classes.generic_implicit import generic_implicit
-    from pySDC.implementations.convergence_controller_classes.adaptivity import Adaptivity
+    from pySDC.implementations.convergence_controller_classes.adaptivity import Adaptivity, AdaptivityPolynomialError
     from pySDC.implementations.convergence_controller_classes.basic_restarting import BasicRestartingNonMPI
     if case['problem'] == 'vdp':
         from pySDC.implementations.problem_classes.Van_der_Pol_implicit import vanderpol
@@ -91,10 +93,15 @@ def run(case):
     for k in ('dt_min', 'dt_max', 'dt_slope_min', 'dt_slope_max', 'dt_rel_min_slope', 'beta', 'avoid_restarts'):
         if k in case:
             ad[k] = case[k]
+    poly = case.get('flavour') == 'poly'
+    if poly:
+        # adaptivity for converged collocation problems: iterates to a residual tolerance, restarts when that is not reached within
+        # maxiter (interpolating the iterate to the new nodes) AND when the polynomial error estimate is too large
+        ad = dict(e_tol=case['e_tol'], restol_rel=1e-3, restart_at_maxiter=True)
     desc = dict(problem_class=pc, problem_params=pp, sweeper_class=generic_implicit,
                 sweeper_params=dict(num_nodes=3, quad_type='RADAU-RIGHT', QI='LU'),
-                level_params=dict(dt=case['dt'], restol=-1.0), step_params=dict(maxiter=case.get('maxiter', 3)),
-                convergence_controllers={Adaptivity: ad, _RawProposal: {}, _Final: {},
+                level_params=dict(dt=case['dt'], restol=-1.0) if not poly else dict(dt=case['dt']), step_params=dict(maxiter=case.get('maxiter', 3)),
+                convergence_controllers={(AdaptivityPolynomialError if poly else Adaptivity): ad, _RawProposal: {}, _Final: {},
                                          BasicRestartingNonMPI: dict(max_restarts=case.get('max_restarts', 10),
                                                                      crash_after_max_restarts=case.get('crash', True))})
     if case.get('script'):
@@ -118,6 +125,7 @@ def run(case):
                     | {a['final'][0] for a in att if a['final'] and a['final'][0] is not None})
     rank = {f: k + 1 for k, f in enumerate(floats)}
     out = []
+    u0ids = {}
     for a in att:
         raw, e_est, order = a['raw'] if a['raw'] else (None, None, None)
         formula_ok = True
@@ -143,9 +151,10 @@ def run(case):
                     exp = case['dt_max']
         clip_ok = bool(fin == exp) if raw is not None else True
         dtn = fin if fin is not None else a['dt']
-        out.append(dict(t=rank[a['t']], e=rank[a['t'] + a['dt']], dt=rank[a['dt']], dtnew=rank.get(dtn, 0), restart=bool(a['restart']), riar=int(a['riar']),
+        uid = u0ids.setdefault(a['u0h'], len(u0ids) + 1)
+        out.append(dict(u0=uid, t=rank[a['t']], e=rank[a['t'] + a['dt']], dt=rank[a['dt']], dtnew=rank.get(dtn, 0), restart=bool(a['restart']), riar=int(a['riar']),
                         est_lt_tol=bool(a['e_est'] is not None and a['e_est'] < e_tol),  # the estimate the step ENDED with
                         formula_ok=formula_ok, clip_ok=clip_ok,
                         lower_limit_binds=bool(lower), tend_binds=bool(a['t'] + a['dt'] + dtn > case['tend'] - 1e-12),
                         reaches_tend=bool(a['t'] + a['dt'] >= case['tend'] - 1e-9 * a['dt'])))
-    return dict(exc=exc, att=out, max_restarts=case.get('max_restarts', 10), raw=[(a['t'], a['dt'], a['restart'], a['e_est']) for a in att[:6]])
+    return dict(exc=exc, att=out, full=not poly, max_restarts=case.get('max_restarts', 10), raw=[(a['t'], a['dt'], a['restart'], a['e_est']) for a in att[:6]])
